@@ -401,8 +401,9 @@ func runC07(c *core.Ctx) {
 // repeatable, not for this location) applied in every form (bare, with its argument, with an unknown
 // argument, with the argument twice, with a value of the wrong type, null, twice in a row) at each of
 // the eleven type-system locations.
-func schemaSmallScope() []string {
-	base := "scalar S type O { a: Int } interface I { a: Int } union U = O enum E { A } input In { a: Int } type Query { q: Int } "
+func schemaSmallScopeChunks() [][]string {
+	base := []string{"scalar S", "type O { a: Int }", "interface I { a: Int }", "union U = O", "enum E { A }", "input In { a: Int }", "type Query { q: Int }"}
+	with := func(extra ...string) []string { return append(append([]string{}, base...), extra...) }
 	targets := []string{"S", "O", "I", "U", "E", "In", "Int", "ID", "__Type", "Nope"}
 	wrap := []func(string) string{
 		func(t string) string { return t }, func(t string) string { return t + "!" }, func(t string) string { return "[" + t + "]" },
@@ -420,17 +421,17 @@ func schemaSmallScope() []string {
 		"extend type %s { z: Int }", "extend interface %s { z: Int }", "extend union %s = O", "extend enum %s { Z }", "extend input %s { z: Int }", "extend scalar %s @deprecated",
 		"type %s { z: Int }", "scalar %s", "enum %s { Z }", "directive @%s on FIELD",
 	}
-	var out []string
+	var out [][]string
 	for _, p := range refPlaces {
 		for _, t := range targets {
 			for _, w := range wrap {
-				out = append(out, base+strings.Replace(p, "%s", w(t), 1))
+				out = append(out, with(strings.Replace(p, "%s", w(t), 1)))
 			}
 		}
 	}
 	for _, p := range namePlaces {
 		for _, t := range append(targets, "Query", "X", "String") {
-			out = append(out, base+strings.Replace(p, "%s", t, 1))
+			out = append(out, with(strings.Replace(p, "%s", t, 1)))
 		}
 	}
 	allLoc := "SCHEMA | SCALAR | OBJECT | FIELD_DEFINITION | ARGUMENT_DEFINITION | INTERFACE | UNION | ENUM | ENUM_VALUE | INPUT_OBJECT | INPUT_FIELD_DEFINITION"
@@ -449,9 +450,17 @@ func schemaSmallScope() []string {
 	for _, df := range defs {
 		for _, f := range forms {
 			for _, st := range sites {
-				out = append(out, "input In { a: Int } enum E { A } "+df+" "+strings.Replace(st, "%s", f, 1))
+				out = append(out, []string{"input In { a: Int }", "enum E { A }", df, strings.Replace(st, "%s", f, 1)})
 			}
 		}
+	}
+	return out
+}
+
+func schemaSmallScope() []string {
+	var out []string
+	for _, ch := range schemaSmallScopeChunks() {
+		out = append(out, strings.Join(ch, " "))
 	}
 	return out
 }
